@@ -271,4 +271,25 @@ PROPS = {
             {"name": "responses", "run": "TestResponses", "kind": "rapid", "checks": {Q: 3200, T: 96000}, "shards": {Q: 4, T: 16}, "steps": {Q: 12, T: 20}},
         ],
     },
+    "C07": {
+        "pkg": "c07",
+        "rule": ("rapid state machine over local configurations: 1-4 entities (incl. nested addresses) x features of drawn types and roles created "
+                 "through AddFeature (with de-duplication) and GetOrAddFeature x function sets with read/write flags x descriptions; histories of "
+                 "add/remove/re-add entity, add feature/function, use-case action, discovery reads from 2-3 peers of which some subscribed to "
+                 "NodeManagement. A harness-side model of the configuration is compared with every discovery reply (entities, features, type, role, "
+                 "description, operations incl. partial flag, as sets), announced addresses must resolve to the very feature object, each AddEntity / "
+                 "RemoveEntity must give every subscribed peer exactly one partial notify describing the entity (added with features / removed without) "
+                 "and nothing to the others, feature ids never repeat. Schedules: all interleavings of 2 and 3 concurrent GetOrAddFeature calls on one "
+                 "entity over the yield point between lookup miss and creation (238 schedules), plus barrier-started stress. Non-trivial: a checked read "
+                 "with >=2 application entities after a mutation that followed an earlier read; schedule with >=2 callers inside the window. Distinct by "
+                 "rendered history / schedule."),
+        "assumptions": ["the heartbeat function is never added (C16); entity descriptions are not asserted (not announced by the stack)",
+                        "re-adding an existing function uses its original flags"],
+        "runs": [
+            {"name": "tree", "run": "TestLocalTree", "kind": "rapid", "checks": {Q: 1200, T: 30000}, "shards": {Q: 4, T: 16}, "steps": {Q: 30, T: 60}},
+            {"name": "interleavings", "run": "TestGetOrAddInterleavings", "kind": "plain"},
+            {"name": "stress", "run": "TestGetOrAddStress", "kind": "plain", "env": {"VERIF_ROUNDS": {Q: 300, T: 2000}}},
+            {"name": "regression", "run": "TestGetOrAddRegressionF23a", "kind": "plain"},
+        ],
+    },
 }
